@@ -51,6 +51,29 @@ def run(ck, m):
     lock_tty = m.get(U, "lock_tty")
     wrapper = m.get(U, "lock_tty.lock_tty_wrapper")
 
+    # the terminal locks are taken and released by `with` only: an explicit acquire() / release() (directly, or handed to os.register_at_fork) can be
+    # unbalanced - e.g. the one acquisition before a fork released both in the parent and in the child's copy of a process-shared lock
+    for rel_, q_, fn_ in list(m.functions()) + [(U, "<module>", tree)]:
+        for c_ in (body_walk(fn_) if fn_ is not tree else [x for st_ in tree.body if not isinstance(st_, (ast.FunctionDef, ast.ClassDef)) for x in ast.walk(st_)]):
+            if isinstance(c_, ast.Call) and isinstance(c_.func, ast.Attribute) and c_.func.attr in ("acquire", "release") and any(
+                    nm_ in norm(c_.func.value) for nm_ in ("_tty_lock", "_cell_size_lock")):
+                ck.ob("L3", enclosing_stmt(c_), False, f"{q_}: `{short(c_, 50)}` takes / releases a terminal lock outside a `with`: acquisitions and releases can then be unbalanced "
+                      "(a release in a forked child of a lock the parent releases too lets parent and child hold it together)", stmt=f"{rel_}::{q_}: terminal locks only through `with`")
+            if isinstance(c_, ast.Call) and norm(c_.func).endswith("register_at_fork"):
+                ck.ob("L3", enclosing_stmt(c_), False, f"{q_}: fork hooks on the terminal locks: the process-shared lock is one semaphore for parent and children - releasing it `after_in_child` "
+                      "releases the parent's acquisition a second time", stmt=f"{rel_}::{q_}: no fork hooks on the terminal locks")
+    # a decorator guarded by no_redecorate marks what it RETURNS, never what it was given: a mark on the plain function makes a second `lock_tty(f)` return
+    # f itself - unsynchronized
+    nrw = m.find(U, "no_redecorate.no_redecorate_wrapper")
+    ck.expect(nrw is not None, "no_redecorate.no_redecorate_wrapper not found")
+    if nrw is not None:
+        marks = [c_ for c_ in body_walk(nrw) if isinstance(c_, ast.Call) and norm(c_.func) == "setattr" and len(c_.args) == 3]
+        ck.expect(len(marks) >= 1, "no_redecorate_wrapper: the marking setattr not found")
+        for c_ in marks:
+            tv_ = norm(trace(nrw, c_.args[0], use=c_))
+            ck.ob("L5", enclosing_stmt(c_), tv_.startswith("decor("), f"no_redecorate marks `{tv_[:50]}` instead of the object the decorator returned: the undecorated function then carries the mark, "
+                  "and decorating it again returns it undecorated (a `lock_tty` handler registered twice runs without the lock)", stmt="no_redecorate: the mark goes on the decorator's result")
+
     # ---- L1 ---------------------------------------------------------------------------
     body = [s for s in wrapper.body if not (isinstance(s, ast.Expr) and isinstance(s.value, ast.Constant))]
     w = body[0] if body else None
